@@ -15,5 +15,7 @@ MCIdPages2 == { <<0,0,0,1>> }
 \* 5 accessed, 6 dirty, 7 huge page (= PAT on a 4K leaf), 8 global, 9 copy-on-write, 63 no-execute
 \* sets WITHOUT bit 0 ask for a non-present leaf: the page must stay / become unmapped
 MCFlagsA == { {0}, {0,1,7,63}, {1,2} }
+\* two sets only (sequences of three are expensive): a present leaf with bit 7 and NX, and a non-present request
+MCFlagsA2 == { {0,1,7,63}, {1,2} }
 MCFlagsB == { {0}, {0,1,5,6,7}, {0,2,63}, {0,7,9,63}, {0,1,2,3,4,8}, {1,9,63} }
 ====
